@@ -1,6 +1,6 @@
 import TwistedProps.C15.Progress
 /-!
-C15 lemmas — a fair round started in a non-quiescent disciplined state strictly decreases `mu`; hence `runFair`
+C15 lemmas — a fair round started in a non-quiescent disciplined state strictly decreases `mu`; hence `runFair0`
 with enough fuel ends in a quiescent state.
 -/
 namespace TwistedProps.C15
@@ -47,15 +47,15 @@ theorem finv_abortCall (s : Sys) (h : FInv s) : s.b.abortCall = false ∧
     exact ⟨this.2, fun h' => by simp [this.1] at h'⟩
   · exact ⟨abort_abortCallB _ _ _ _ h, fun _ => h⟩
 
-theorem stepOK_ioA (s : Sys) (h : FInv s) : StepOK FInv enA s (step s (.io .A true true true BIG BIG)) := by
+theorem stepOK_ioA (s : Sys) (h : FInv s) : StepOK FInv enA s (step0 s (.io .A true true true BIG BIG)) := by
   obtain ⟨hp, hrm, hk⟩ := h
-  have hinv : FInv (step s (.io .A true true true BIG BIG)) := by
+  have hinv : FInv (step0 s (.io .A true true true BIG BIG)) := by
     refine ⟨by rw [step_p]; exact hp, by rw [step_p]; exact hrm, ?_⟩
     rcases hk with ⟨wd, hk⟩ | hk | hk
     · exact Or.inl ⟨wd, lose_step wd s hp _ rfl hk⟩
     · exact Or.inr (Or.inl (half_step s hp _ rfl hk))
     · exact Or.inr (Or.inr (abort_step s _ rfl hk))
-  have hdec : Dec s.p s.b (s.view .A) (io s.p (s.view .A) true true true BIG BIG) true true BIG BIG := by
+  have hdec : Dec s.p s.b (s.view .A) (io0 s.p (s.view .A) true true true BIG BIG) true true BIG BIG := by
     rcases hk with ⟨wd, hk⟩ | hk | hk
     · exact lose_ioA_mu wd s.p hp (s.view .A) s.b _ _ _ _ _ hk
     · exact half_ioA_mu s.p hp hrm (s.view .A) s.b _ _ _ _ _ hk
@@ -66,7 +66,7 @@ theorem stepOK_ioA (s : Sys) (h : FInv s) : StepOK FInv enA s (step s (.io .A tr
         · simp only [X2, DeadC] at hk; exact ⟨hk.1.2.2.2.2.1, hk.1.2.2.2.2.2.1⟩
         · simp only [X3, DeadC] at hk; exact ⟨hk.1.2.2.2.2.1, hk.1.2.2.2.2.2.1⟩
       exact dec_refl_idle s.p s.b _ _ _ _ _ H.1 H.2
-  have hlt : enA s = true → mu (step s (.io .A true true true BIG BIG)) < mu s :=
+  have hlt : enA s = true → mu (step0 s (.io .A true true true BIG BIG)) < mu s :=
     fun he => hdec.2 rfl rfl (by decide) (by decide) he
   refine ⟨hinv, hdec.1, hlt, fun he => Or.inr (hlt he), ?_, ?_, fun h' => Or.inl h'⟩
   · intro he
@@ -74,30 +74,30 @@ theorem stepOK_ioA (s : Sys) (h : FInv s) : StepOK FInv enA s (step s (.io .A tr
   · intro h'
     have hab := (finv_abortCall s ⟨hp, hrm, hk⟩).2 h'
     left
-    show (io s.p (s.view .A) true true true BIG BIG).c.abortCall = true
+    show (io0 s.p (s.view .A) true true true BIG BIG).c.abortCall = true
     rw [abort_ioA s.p (s.view .A) s.b _ _ _ _ _ hab]; exact h'
 
 theorem mu_viewB (s : Sys) (v' : View) :
     mu { s with b := v'.c, kb := v'.k, ka := v'.pk } = muV s.a v' := by
   simp only [mu, muV]; omega
 
-theorem stepOK_ioB (s : Sys) (h : FInv s) : StepOK FInv enB s (step s (.io .B true true true BIG BIG)) := by
+theorem stepOK_ioB (s : Sys) (h : FInv s) : StepOK FInv enB s (step0 s (.io .B true true true BIG BIG)) := by
   obtain ⟨hp, hrm, hk⟩ := h
-  have hinv : FInv (step s (.io .B true true true BIG BIG)) := by
+  have hinv : FInv (step0 s (.io .B true true true BIG BIG)) := by
     refine ⟨by rw [step_p]; exact hp, by rw [step_p]; exact hrm, ?_⟩
     rcases hk with ⟨wd, hk⟩ | hk | hk
     · exact Or.inl ⟨wd, lose_step wd s hp _ rfl hk⟩
     · exact Or.inr (Or.inl (half_step s hp _ rfl hk))
     · exact Or.inr (Or.inr (abort_step s _ rfl hk))
-  have hdec : Dec s.p s.a (s.view .B) (io s.p (s.view .B) true true true BIG BIG) true true BIG BIG := by
+  have hdec : Dec s.p s.a (s.view .B) (io0 s.p (s.view .B) true true true BIG BIG) true true BIG BIG := by
     rcases hk with ⟨wd, hk⟩ | hk | hk
     · exact lose_ioB_mu wd s.p hp hrm (s.view .B) s.a _ _ _ _ _ hk
     · exact half_ioB_mu s.p hp hrm (s.view .B) s.a _ _ _ _ _ hk
     · exact abort_ioB_mu s.p hrm (s.view .B) s.a _ _ _ _ _ hk
-  have e1 : mu (step s (.io .B true true true BIG BIG)) = muV s.a (io s.p (s.view .B) true true true BIG BIG) :=
+  have e1 : mu (step0 s (.io .B true true true BIG BIG)) = muV s.a (io0 s.p (s.view .B) true true true BIG BIG) :=
     mu_viewB s _
   have e0 : mu s = muV s.a (s.view .B) := by simp only [mu, muV, Sys.view]; omega
-  have hlt : enB s = true → mu (step s (.io .B true true true BIG BIG)) < mu s := by
+  have hlt : enB s = true → mu (step0 s (.io .B true true true BIG BIG)) < mu s := by
     intro he; rw [e1, e0]; exact hdec.2 rfl rfl (by decide) (by decide) he
   refine ⟨hinv, by rw [e1, e0]; exact hdec.1, hlt, ?_, fun he => Or.inr (hlt he), fun h' => Or.inl h', ?_⟩
   · intro he
@@ -106,23 +106,23 @@ theorem stepOK_ioB (s : Sys) (h : FInv s) : StepOK FInv enB s (step s (.io .B tr
     have := (finv_abortCall s ⟨hp, hrm, hk⟩).1
     simp [tmB, this] at h'
 
-theorem step_timerA_id (s : Sys) (h : s.a.abortCall = false) : step s (.timer .A) = s := by
-  simp [step, Sys.put, Sys.view, timer, h]
+theorem step_timerA_id (s : Sys) (h : s.a.abortCall = false) : step0 s (.timer .A) = s := by
+  simp [step0, Sys.put, Sys.view, timer, h]
 
-theorem step_timerB_id (s : Sys) (h : s.b.abortCall = false) : step s (.timer .B) = s := by
-  simp [step, Sys.put, Sys.view, timer, h]
+theorem step_timerB_id (s : Sys) (h : s.b.abortCall = false) : step0 s (.timer .B) = s := by
+  simp [step0, Sys.put, Sys.view, timer, h]
 
-theorem stepOK_tB (s : Sys) (h : FInv s) : StepOK FInv tmB s (step s (.timer .B)) := by
+theorem stepOK_tB (s : Sys) (h : FInv s) : StepOK FInv tmB s (step0 s (.timer .B)) := by
   have hb := (finv_abortCall s h).1
   rw [step_timerB_id s hb]
   exact stepOK_id FInv tmB s h hb
 
-theorem stepOK_tA (s : Sys) (h : FInv s) : StepOK FInv tmA s (step s (.timer .A)) := by
+theorem stepOK_tA (s : Sys) (h : FInv s) : StepOK FInv tmA s (step0 s (.timer .A)) := by
   by_cases ha : s.a.abortCall = true
   · have hab := (finv_abortCall s h).2 ha
     obtain ⟨hp, hrm, -⟩ := h
     have hm := abort_timerA_mu (s.view .A) s.b hab
-    have hlt : mu (step s (.timer .A)) < mu s := hm.2 ha
+    have hlt : mu (step0 s (.timer .A)) < mu s := hm.2 ha
     refine ⟨⟨by rw [step_p]; exact hp, by rw [step_p]; exact hrm, Or.inr (Or.inr (abort_timerA (s.view .A) s.b hab))⟩,
       hm.1, fun _ => hlt, fun _ => Or.inr hlt, fun _ => Or.inr hlt, fun _ => Or.inr hlt, fun _ => Or.inr hlt⟩
   · have ha' : s.a.abortCall = false := by simpa using ha
@@ -131,22 +131,22 @@ theorem stepOK_tA (s : Sys) (h : FInv s) : StepOK FInv tmA s (step s (.timer .A)
 
 /-- the four events of a fair round, each well-behaved w.r.t. an invariant `I` and the measure -/
 structure RoundOK (I : Sys → Prop) : Prop where
-  ioA : ∀ s, I s → StepOK I enA s (step s (.io .A true true true BIG BIG))
-  ioB : ∀ s, I s → StepOK I enB s (step s (.io .B true true true BIG BIG))
-  tA : ∀ s, I s → StepOK I tmA s (step s (.timer .A))
-  tB : ∀ s, I s → StepOK I tmB s (step s (.timer .B))
+  ioA : ∀ s, I s → StepOK I enA s (step0 s (.io .A true true true BIG BIG))
+  ioB : ∀ s, I s → StepOK I enB s (step0 s (.io .B true true true BIG BIG))
+  tA : ∀ s, I s → StepOK I tmA s (step0 s (.timer .A))
+  tB : ∀ s, I s → StepOK I tmB s (step0 s (.timer .B))
 
 theorem roundOK_FInv : RoundOK FInv := ⟨stepOK_ioA, stepOK_ioB, stepOK_tA, stepOK_tB⟩
 
 /-- one fair round from a non-quiescent state -/
 theorem fairRound_dec (I : Sys → Prop) (R : RoundOK I) (s : Sys) (h : I s) (hq : s.quiescent = false) :
-    I (run s fairRound) ∧ mu (run s fairRound) < mu s := by
+    I (run0 s fairRound) ∧ mu (run0 s fairRound) < mu s := by
   have k1 := R.ioA s h
   have k2 := R.ioB _ k1.inv
   have k3 := R.tA _ k2.inv
   have k4 := R.tB _ k3.inv
-  have e : run s fairRound =
-      step (step (step (step s (.io .A true true true BIG BIG)) (.io .B true true true BIG BIG)) (.timer .A))
+  have e : run0 s fairRound =
+      step0 (step0 (step0 (step0 s (.io .A true true true BIG BIG)) (.io .B true true true BIG BIG)) (.timer .A))
         (.timer .B) := rfl
   rw [e]
   refine ⟨k4.inv, ?_⟩
@@ -169,17 +169,17 @@ theorem fairRound_dec (I : Sys → Prop) (R : RoundOK I) (s : Sys) (h : I s) (hq
       · omega
     · omega
 
-/-- **Progress.**  From any state satisfying such an invariant, `runFair` with fuel ≥ `mu s` ends in a
+/-- **Progress.**  From any state satisfying such an invariant, `runFair0` with fuel ≥ `mu s` ends in a
     quiescent state (still inside the invariant). -/
 theorem runFair_quiescent (I : Sys → Prop) (R : RoundOK I) (fuel : Nat) (s : Sys) (h : I s) (hf : mu s ≤ fuel) :
-    (runFair fuel s).quiescent = true ∧ I (runFair fuel s) := by
+    (runFair0 fuel s).quiescent = true ∧ I (runFair0 fuel s) := by
   induction fuel generalizing s with
   | zero =>
     cases hq : s.quiescent with
-    | true => exact ⟨by simpa [runFair] using hq, h⟩
+    | true => exact ⟨by simpa [runFair0] using hq, h⟩
     | false => have := (fairRound_dec I R s h hq).2; omega
   | succ n ih =>
-    unfold runFair
+    unfold runFair0
     cases hq : s.quiescent with
     | true => simp only [if_true]; exact ⟨hq, h⟩
     | false =>
